@@ -244,6 +244,13 @@ def r73_ids_ordinal(ctx):
             where_ = f'{oc.name}.{fn.name}' if oc else fn.name
             ok = isinstance(p, (ast.Compare, ast.Return, ast.Tuple, ast.FormattedValue)) or \
                 (isinstance(p, ast.Call) and unparse(p.func) in ('str', 'repr', 'format'))
+            # as the KEY of a lookup table of the object (dict / set field: `self.T[id]`, `self.T.get(id)`, `id in self.T`) only the equality of
+            # ids matters, not their values (iterating such a table is R7.4's concern)
+            if not ok and isinstance(p, ast.Subscript) and p.slice is x and is_self_attr(p.value):
+                ok = True
+            if not ok and isinstance(p, ast.Call) and isinstance(p.func, ast.Attribute) and is_self_attr(p.func.value) and p.args and p.args[0] is x \
+                    and p.func.attr in ('get', 'pop', 'setdefault', 'add', 'discard', 'remove', '__contains__'):
+                ok = True
             ctx.ob('R7.3', f'{where_}:{unparse(x)}', ok, sample=f'{where_}: {unparse(x)} used in {type(p).__name__}')
             if not ok:
                 ctx.finding('R7.3', f'{where_}:{unparse(x)}:{type(p).__name__}', oc, x,
